@@ -50,6 +50,11 @@ enum Harm {
     /// Data and a root DNSKEY RRset signed by an attacker's key that shares
     /// key tag and algorithm with the configured trust anchor.
     RootKeySwap,
+    /// NODATA for existing data, "proven" by the re-owned NSEC of a wildcard.
+    WildcardNsecReplay,
+    /// NODATA / NXDOMAIN for data that exists, built from the name's own
+    /// NSEC/NSEC3, or from the parent side of the delegation (u8: mode).
+    DenyExisting(u8),
 }
 
 #[derive(Default)]
@@ -132,7 +137,7 @@ fn harm(r: &mut Resp, h: Harm, world: &World) -> bool {
     use domain::rdata::ZoneRecordData as D;
     let is_sig = |rec: &super::dnssec_world::SRec| rec.rtype() == Rtype::RRSIG;
     match h {
-        Harm::None | Harm::TransportError | Harm::Nxdomain | Harm::ForgedNxdomainBelowCut | Harm::WildcardReplay | Harm::ForgeDnameCname | Harm::RootKeySwap => false,
+        Harm::None | Harm::TransportError | Harm::Nxdomain | Harm::ForgedNxdomainBelowCut | Harm::WildcardReplay | Harm::ForgeDnameCname | Harm::RootKeySwap | Harm::WildcardNsecReplay | Harm::DenyExisting(_) => false,
         Harm::DropRrsig => {
             // Drop every RRSIG of one signed RRset.
             let sec_is_answer = !r.answer.is_empty() && r.answer.iter().any(is_sig);
@@ -372,7 +377,7 @@ impl Scenario for ValidatorScn {
     }
 }
 
-const QUERIES: [(&str, Rtype, &str); 27] = [
+const QUERIES: [(&str, Rtype, &str); 30] = [
     ("www.zone.tld.", Rtype::A, "positive"),
     ("www.zone.tld.", Rtype::TXT, "positive"),
     ("zone.tld.", Rtype::SOA, "positive"),
@@ -390,6 +395,9 @@ const QUERIES: [(&str, Rtype, &str); 27] = [
     ("foo.wild.zone.tld.", Rtype::A, "wildcard"),
     ("bar.baz.wild.zone.tld.", Rtype::TXT, "wildcard"),
     ("foo.wild.zone.tld.", Rtype::MX, "wildcard-nodata"),
+    ("sub.wild.zone.tld.", Rtype::AAAA, "positive"),
+    ("foo.wc.zone.tld.", Rtype::A, "wildcard-cname"),
+    ("foo.wc.zone.tld.", Rtype::AAAA, "wildcard-cname-nodata"),
     ("x.dn.zone.tld.", Rtype::A, "dname"),
     ("nope.dn.zone.tld.", Rtype::A, "dname-nxdomain"),
     ("alias.zone.tld.", Rtype::A, "cname"),
@@ -401,6 +409,12 @@ const QUERIES: [(&str, Rtype, &str); 27] = [
     ("plain.tld.", Rtype::TXT, "positive-tld"),
     ("other.", Rtype::TXT, "positive-root"),
 ];
+
+/// Query classes whose proof contains an NSEC3 that *covers* the next closer
+/// name (in the opt-out world such a proof cannot be Secure).
+fn next_closer_covered(class: &str) -> bool {
+    matches!(class, "nxdomain" | "wildcard" | "wildcard-nodata" | "cname-nxdomain" | "dname-nxdomain" | "wildcard-cname" | "wildcard-cname-nodata")
+}
 
 async fn run(_tier: Tier) {
     let world_idx = sim::draw("world", 4) as usize;
@@ -508,6 +522,10 @@ async fn run(_tier: Tier) {
                     Harm::WildcardReplay,
                     Harm::ForgeDnameCname,
                     Harm::RootKeySwap,
+                    Harm::WildcardNsecReplay,
+                    Harm::DenyExisting(0),
+                    Harm::DenyExisting(1),
+                    Harm::DenyExisting(2),
                 ],
             )
         } else {
@@ -538,6 +556,24 @@ async fn run(_tier: Tier) {
                 Some(f) => {
                     r = f;
                     sim::stat("fault.dname_cname_redirected");
+                    true
+                }
+                None => false,
+            }
+        } else if final_harm == Harm::WildcardNsecReplay {
+            match w.forged_wildcard_nsec_nodata(qname, qtype) {
+                Some(f) => {
+                    r = f;
+                    sim::stat("fault.wildcard_nsec_reowned_as_nodata_proof");
+                    true
+                }
+                None => false,
+            }
+        } else if let Harm::DenyExisting(mode) = final_harm {
+            match w.forged_denial_of_existing(qname, qtype, mode) {
+                Some(f) => {
+                    r = f;
+                    sim::stat(["fault.nodata_with_the_names_own_nsec", "fault.nxdomain_with_the_names_own_nsec", "fault.nodata_at_child_apex_with_parent_side_nsec"][mode as usize]);
                     true
                 }
                 None => false,
@@ -707,7 +743,7 @@ async fn run(_tier: Tier) {
             }
             if !cache_poisoned && in_window && clock_plan != 7 && clock_plan != 8 {
                 let want = if *c_insecure { "Insecure" } else { "Secure" };
-                let opt_out_negative = (world_idx == 3 && matches!(*cc, "nxdomain" | "wildcard" | "wildcard-nodata" | "cname-nxdomain" | "dname-nxdomain")) || (nsec3_unchecked && !cc.starts_with("positive") && !matches!(*cc, "cname" | "dname"));
+                let opt_out_negative = (world_idx == 3 && next_closer_covered(cc)) || (nsec3_unchecked && !cc.starts_with("positive") && !matches!(*cc, "cname" | "dname"));
                 if cstate != want && !(opt_out_negative && cstate == "Insecure") {
                     sim::violation(
                         P,
@@ -725,6 +761,19 @@ async fn run(_tier: Tier) {
         if secure && final_harmed {
             sim::violation(P, "soundness", format!("secure-despite-{:?}/{}", final_harm, class), format!("{} {} ({}, world {}): the response was tampered ({:?}) and still validated as Secure", qname, qtype, class, world_idx, final_harm));
             return;
+        }
+        // RFC 5155 section 9.2: no AD bit when the NSEC3 covering the next
+        // closer name has the Opt-Out flag - it cannot show that no insecure
+        // delegation lives there. In world 3 every NSEC3 carries the flag.
+        {
+            let n3: Vec<bool> = r.authority.iter().filter_map(|rec| if let domain::rdata::ZoneRecordData::Nsec3(n) = rec.data() { Some(n.opt_out()) } else { None }).collect();
+            if secure && world_idx == 3 && next_closer_covered(class) && !n3.is_empty() && n3.iter().all(|x| *x) {
+                sim::violation(P, "soundness", format!("secure-with-opt-out-covered-next-closer/{}", class), format!("{} {} ({}, world 3): reported Secure although every NSEC3 of the proof, the one covering the next closer name included, has the Opt-Out flag", qname, qtype, class));
+                return;
+            }
+            if world_idx == 3 && next_closer_covered(class) && !n3.is_empty() && n3.iter().all(|x| *x) {
+                sim::stat("probe.opt_out_covered_next_closer");
+            }
         }
         if secure && infra_applied > 0 {
             sim::violation(
@@ -789,7 +838,7 @@ async fn run(_tier: Tier) {
             // With NSEC3 opt-out a covering NSEC3 cannot prove that no
             // insecure delegation exists there (RFC 5155 section 9.2):
             // such negative / wildcard answers may be reported Insecure.
-            let opt_out_negative = (world_idx == 3 && matches!(class, "nxdomain" | "wildcard" | "wildcard-nodata" | "cname-nxdomain" | "dname-nxdomain")) || (nsec3_unchecked && !class.starts_with("positive") && !matches!(class, "cname" | "dname"));
+            let opt_out_negative = (world_idx == 3 && next_closer_covered(class)) || (nsec3_unchecked && !class.starts_with("positive") && !matches!(class, "cname" | "dname"));
             if state != want && !(opt_out_negative && state == "Insecure") {
                 sim::violation(
                     P,
